@@ -37,4 +37,8 @@ theorem n16_n16f32 (w : Nat) (hw : w < 65536) : QuantF32.n16 (n16f32 w) = w := (
 theorem s16_n16f32 (w : Nat) (hw : w < 65536) : QuantBits.s16 (n16f32 w) = some (s16_from_n16 w) :=
   (chk16_sound w (chk16_all w hw)).2
 
+/-- `n16::f32(w)` is a finite non-negative bit pattern -/
+theorem n16f32_lt (w : Nat) (hw : w < 65536) : n16f32 w < 2 ^ 32 :=
+  Nat.lt_trans (chk16_lt w (chk16_all w hw)) (by decide)
+
 end Dds.EncCarrier
